@@ -245,6 +245,41 @@ def check_combined(chk, prog):
               decl[0].loc if decl else None)
 
 
+def check_run_n(chk, prog):
+    R = chk.rule("R-RUN-N", "the `(run R n)` command is parsed to Repeat(n, Run(R)) with n taken from the parsed unsigned literal (so R-SCHED-EXITS' Repeat semantics are (run R n)'s)")
+    found = False
+    ok = False
+    loc = None
+    for f in prog.lib_fns(["egglog"]):
+        if not f.file.endswith("src/ast/parse.rs"):
+            continue
+        for i, j, s in f.assigns():
+            rv = s[2]
+            if rv[0] == "agg" and rv[2] == SCHED and rv[3] == "Repeat":
+                adt = prog.adts[SCHED]
+                v = next(x for x in adt["variants"] if x["name"] == "Repeat")
+                # fields: span, limit, boxed schedule
+                inner = f.origins(rv[4][2])
+                inner_run = False
+                for a in inner:
+                    if a[0] == "agg" and a[2] == SCHED and a[3] == "Run":
+                        inner_run = True
+                    if a[0] == "call" and a[1].endswith("Box::new"):
+                        pass
+                if not inner_run:
+                    # Box::new is transparent: look one level further
+                    continue
+                found = True
+                loc = f"{f.file}:{s[3]}"
+                la = f.origins(rv[4][1])
+                ok = bool(la) and all(a[0] == "call" and a[1].endswith("expect_uint") for a in la)
+    if not found:
+        chk.missing(R, "Repeat(limit, Run(..)) built by the `run` command parser")
+        return
+    chk.judge(ok, R, "egglog::ast::parse:run-command", "(run R n) = Repeat(n, Run R) with n from the literal",
+              "the iteration count of (run R n) does not come from the parsed literal", loc)
+
+
 def run(chk, prog, tier):
     chk.explanation = EXPLANATION
     chk.assumptions = ["rustc nightly MIR construction", "(run R n) is desugared to (repeat n (run R)) by the parser (decided under C15's parser tables, not here)"]
@@ -252,3 +287,4 @@ def run(chk, prog, tier):
     check_until(chk, prog)
     check_report_flow(chk, prog)
     check_combined(chk, prog)
+    check_run_n(chk, prog)
